@@ -292,7 +292,11 @@ class ControlledGate(ComposedGate):
             _controls = f'c{self.num_controls}'
         qasm_name = _controls + _core_gate
         supported_gates = ('cu1', 'cu2', 'cu3', 'cswap', 'c3x', 'c4x')
-        if qasm_name not in supported_gates:
+        standard_controls = (
+            all(r == 2 for r in self.control_radixes)
+            and all(list(lvls) == [1] for lvls in self.control_levels)
+        )
+        if qasm_name not in supported_gates or not standard_controls:
             raise ValueError(
                 f'Controlled gate {_core_gate} with {self.num_controls} '
                 'controls is not a standard OpenQASM 2.0 identifier. '
